@@ -2,7 +2,6 @@
     all 2^32 groups by arithmetic (C05 quantifier "exhaustively all 2^32 ASCII85 groups"). *)
 From PdfV Require Import Base.Prelude Gen.Generated Codec.Model.
 Require Import ZifyBool ZifyNat ZifyN.
-Ltac Zify.zify_post_hook ::= Z.div_mod_to_equations.
 
 (* the generated constants this file depends on, as equations (re-checked on every run) *)
 Lemma a85_consts :
@@ -37,13 +36,37 @@ Lemma base85_chunk_spec n : n < 4294967296 ->
     digit a /\ digit b /\ digit c /\ digit d /\ digit e /\ a <= 115 /\ val5 a b c d e = n.
 Proof.
   intros Hn. unfold base85_chunk, sym85_lo. cbn [map].
-  do 5 eexists. split; [reflexivity|]. unfold digit, val5. repeat split; lia.
+  pose proof (N.div_mod n 85) as E1. pose proof (N.mod_lt n 85) as L1.
+  set (n1 := n / 85) in *. set (e := n mod 85) in *.
+  pose proof (N.div_mod n1 85) as E2. pose proof (N.mod_lt n1 85) as L2.
+  set (n2 := n1 / 85) in *. set (d := n1 mod 85) in *.
+  pose proof (N.div_mod n2 85) as E3. pose proof (N.mod_lt n2 85) as L3.
+  set (n3 := n2 / 85) in *. set (c := n2 mod 85) in *.
+  pose proof (N.div_mod n3 85) as E4. pose proof (N.mod_lt n3 85) as L4.
+  set (a := n3 / 85) in *. set (b := n3 mod 85) in *.
+  assert (a <= 82) by lia.
+  rewrite !(N.mod_small (_ + 33) 256) by lia.
+  do 5 eexists. split; [reflexivity|]. unfold digit, val5. repeat split; try lia.
 Qed.
+
+Lemma divk a k r : r < k -> (a * k + r) / k = a.
+Proof. intros H. symmetry. apply (N.div_unique _ k a r); lia. Qed.
+Lemma modk a k r : r < k -> (a * k + r) mod k = r.
+Proof. intros H. symmetry. apply (N.mod_unique _ k a r); lia. Qed.
 
 Lemma be4_of_be4 a b c d : a < 256 -> b < 256 -> c < 256 -> d < 256 ->
   be4 (of_be4 a b c d) = [a; b; c; d].
 Proof.
-  intros. unfold be4, of_be4. repeat f_equal; lia.
+  intros. unfold be4, of_be4.
+  set (X := ((a * 256 + b) * 256 + c) * 256 + d).
+  assert (E1 : X = a * 16777216 + (b * 65536 + (c*256 + d))) by (unfold X; lia).
+  assert (E2 : X = (a * 256 + b) * 65536 + (c*256 + d)) by (unfold X; lia).
+  assert (E3 : X = ((a * 256 + b) * 256 + c) * 256 + d) by reflexivity.
+  f_equal; [|f_equal; [|f_equal; [|f_equal]]].
+  - rewrite E1. apply divk. lia.
+  - rewrite E2, divk by lia. apply modk. lia.
+  - rewrite E3, divk by lia. apply modk. lia.
+  - rewrite E3. apply modk. lia.
 Qed.
 
 Lemma of_be4_bound a b c d : a < 256 -> b < 256 -> c < 256 -> d < 256 -> of_be4 a b c d < 4294967296.
@@ -52,54 +75,197 @@ Proof. intros. unfold of_be4. lia. Qed.
 (** every one of the 2^32 groups *)
 Theorem a85_group a b c d : a < 256 -> b < 256 -> c < 256 -> d < 256 ->
   exists s0 s1 s2 s3 s4, base85_chunk (of_be4 a b c d) = [s0; s1; s2; s3; s4] /\
-    s0 <> a85_z /\ word_85 s0 s1 s2 s3 s4 = Some [a; b; c; d].
+    digit s0 /\ digit s1 /\ digit s2 /\ digit s3 /\ digit s4 /\
+    word_85 s0 s1 s2 s3 s4 = Some [a; b; c; d].
 Proof.
   intros Ha Hb Hc Hd.
   destruct (base85_chunk_spec _ (of_be4_bound a b c d Ha Hb Hc Hd))
     as (s0 & s1 & s2 & s3 & s4 & E & D0 & D1 & D2 & D3 & D4 & H0 & V).
-  exists s0, s1, s2, s3, s4. split; [exact E|]. split.
-  - unfold a85_z. lia.
-  - rewrite word_85_digits; try assumption.
-    + rewrite V. rewrite be4_of_be4 by assumption. reflexivity.
-    + rewrite V. apply of_be4_bound; assumption.
+  exists s0, s1, s2, s3, s4. split; [exact E|]. repeat (split; [assumption|]).
+  rewrite word_85_digits; try assumption.
+  - rewrite V. rewrite be4_of_be4 by assumption. reflexivity.
+  - rewrite V. apply of_be4_bound; assumption.
 Qed.
 
 (** partial final groups: k data bytes are written as k+1 symbols, the reader pads with 'u' *)
+Lemma be4_first1 a r : r < 16777216 -> firstn 1 (be4 (a * 16777216 + r)) = [a].
+Proof. intros. unfold be4. cbn [firstn]. rewrite divk by assumption. reflexivity. Qed.
+
+Lemma be4_first2 a b r : b < 256 -> r < 65536 -> firstn 2 (be4 ((a * 256 + b) * 65536 + r)) = [a; b].
+Proof.
+  intros. unfold be4. cbn [firstn]. f_equal; [|f_equal].
+  - replace ((a * 256 + b) * 65536 + r) with (a * 16777216 + (b * 65536 + r)) by lia. apply divk. lia.
+  - rewrite divk by assumption. apply modk. assumption.
+Qed.
+
+Lemma be4_first3 a b c r : b < 256 -> c < 256 -> r < 256 ->
+  firstn 3 (be4 (((a * 256 + b) * 256 + c) * 256 + r)) = [a; b; c].
+Proof.
+  intros. unfold be4. cbn [firstn]. f_equal; [|f_equal; [|f_equal]].
+  - replace (((a * 256 + b) * 256 + c) * 256 + r) with (a * 16777216 + (b * 65536 + (c * 256 + r))) by lia. apply divk. lia.
+  - replace (((a * 256 + b) * 256 + c) * 256 + r) with ((a * 256 + b) * 65536 + (c * 256 + r)) by lia.
+    rewrite divk by lia. apply modk. assumption.
+  - rewrite divk by assumption. apply modk. assumption.
+Qed.
+
 Lemma tail1 a : a < 256 ->
-  exists s0 s1 s2 s3 s4 w, base85_chunk (of_be4 a 0 0 0) = [s0; s1; s2; s3; s4] /\ s0 <> a85_z /\
+  exists s0 s1 s2 s3 s4 w, base85_chunk (of_be4 a 0 0 0) = [s0; s1; s2; s3; s4] /\ digit s0 /\ digit s1 /\
     word_85 s0 s1 117 117 117 = Some w /\ firstn 1 w = [a].
 Proof.
   intros Ha.
   destruct (base85_chunk_spec (of_be4 a 0 0 0)) as (s0 & s1 & s2 & s3 & s4 & E & D0 & D1 & D2 & D3 & D4 & H0 & V).
   { unfold of_be4. lia. }
-  exists s0, s1, s2, s3, s4. eexists. split; [exact E|]. split; [unfold a85_z; lia|].
+  exists s0, s1, s2, s3, s4. eexists. split; [exact E|]. do 2 (split; [assumption|]).
   unfold digit, val5, of_be4 in *.
-  rewrite word_85_digits; unfold digit, val5; try lia.
-  split; [reflexivity|]. unfold be4. cbn [firstn]. f_equal. lia.
+  set (r := (117 - s2) * 7225 + (117 - s3) * 85 + (117 - s4)).
+  assert (Hv : val5 s0 s1 117 117 117 = a * 16777216 + r) by (unfold val5, r; lia).
+  assert (Hr : r < 16777216) by (unfold r; lia).
+  rewrite word_85_digits by (unfold digit; rewrite ?Hv; lia).
+  split; [reflexivity|]. rewrite Hv. apply be4_first1. exact Hr.
 Qed.
 
 Lemma tail2 a b : a < 256 -> b < 256 ->
-  exists s0 s1 s2 s3 s4 w, base85_chunk (of_be4 a b 0 0) = [s0; s1; s2; s3; s4] /\ s0 <> a85_z /\
+  exists s0 s1 s2 s3 s4 w, base85_chunk (of_be4 a b 0 0) = [s0; s1; s2; s3; s4] /\ digit s0 /\ digit s1 /\ digit s2 /\
     word_85 s0 s1 s2 117 117 = Some w /\ firstn 2 w = [a; b].
 Proof.
   intros Ha Hb.
   destruct (base85_chunk_spec (of_be4 a b 0 0)) as (s0 & s1 & s2 & s3 & s4 & E & D0 & D1 & D2 & D3 & D4 & H0 & V).
   { unfold of_be4. lia. }
-  exists s0, s1, s2, s3, s4. eexists. split; [exact E|]. split; [unfold a85_z; lia|].
+  exists s0, s1, s2, s3, s4. eexists. split; [exact E|]. do 3 (split; [assumption|]).
   unfold digit, val5, of_be4 in *.
-  rewrite word_85_digits; unfold digit, val5; try lia.
-  split; [reflexivity|]. unfold be4. cbn [firstn]. repeat f_equal; lia.
+  set (r := (117 - s3) * 85 + (117 - s4)).
+  assert (Hv : val5 s0 s1 s2 117 117 = (a * 256 + b) * 65536 + r) by (unfold val5, r; lia).
+  assert (Hr : r < 65536) by (unfold r; lia).
+  rewrite word_85_digits by (unfold digit; rewrite ?Hv; lia).
+  split; [reflexivity|]. rewrite Hv. apply be4_first2; assumption.
 Qed.
 
 Lemma tail3 a b c : a < 256 -> b < 256 -> c < 256 ->
-  exists s0 s1 s2 s3 s4 w, base85_chunk (of_be4 a b c 0) = [s0; s1; s2; s3; s4] /\ s0 <> a85_z /\
+  exists s0 s1 s2 s3 s4 w, base85_chunk (of_be4 a b c 0) = [s0; s1; s2; s3; s4] /\ digit s0 /\ digit s1 /\ digit s2 /\ digit s3 /\
     word_85 s0 s1 s2 s3 117 = Some w /\ firstn 3 w = [a; b; c].
 Proof.
   intros Ha Hb Hc.
   destruct (base85_chunk_spec (of_be4 a b c 0)) as (s0 & s1 & s2 & s3 & s4 & E & D0 & D1 & D2 & D3 & D4 & H0 & V).
   { unfold of_be4. lia. }
-  exists s0, s1, s2, s3, s4. eexists. split; [exact E|]. split; [unfold a85_z; lia|].
+  exists s0, s1, s2, s3, s4. eexists. split; [exact E|]. do 4 (split; [assumption|]).
   unfold digit, val5, of_be4 in *.
-  rewrite word_85_digits; unfold digit, val5; try lia.
-  split; [reflexivity|]. unfold be4. cbn [firstn]. repeat f_equal; lia.
+  set (r := 117 - s4).
+  assert (Hv : val5 s0 s1 s2 s3 117 = ((a * 256 + b) * 256 + c) * 256 + r) by (unfold val5, r; lia).
+  assert (Hr : r < 256) by (unfold r; lia).
+  rewrite word_85_digits by (unfold digit; rewrite ?Hv; lia).
+  split; [reflexivity|]. rewrite Hv. apply be4_first3; assumption.
+Qed.
+
+(* ------------------------------------------------------------------ *)
+(** the whole string *)
+
+Definition sym_ok (s : N) : Prop := digit s \/ s = 122.
+
+Lemma sym_ok_clean s : sym_ok s -> memN s a85_ws = false /\ (s =? a85_tilde) = false.
+Proof.
+  unfold sym_ok, digit, a85_ws, a85_tilde, memN. intros H. cbn [existsb].
+  repeat match goal with |- context [?a =? ?b] => destruct (N.eqb_spec a b) end; cbn; try lia; auto.
+Qed.
+
+Lemma strip_clean l : Forall sym_ok l -> strip a85_ws l = l.
+Proof.
+  induction 1 as [|s l Hs Hl IH]; [reflexivity|]. unfold strip in *. cbn [filter].
+  destruct (sym_ok_clean s Hs) as [-> _]. cbn [negb]. rewrite IH. reflexivity.
+Qed.
+
+Lemma strip_app ws a b : strip ws (a ++ b) = strip ws a ++ strip ws b.
+Proof. unfold strip. apply filter_app. Qed.
+
+Lemma take_until_clean l rest : Forall sym_ok l -> take_until a85_tilde (l ++ a85_tilde :: rest) = l.
+Proof.
+  induction 1 as [|s l Hs Hl IH]; cbn [app take_until].
+  - rewrite N.eqb_refl. reflexivity.
+  - destruct (sym_ok_clean s Hs) as [_ ->]. rewrite IH. reflexivity.
+Qed.
+
+Lemma drop_until_clean l rest : Forall sym_ok l -> drop_until a85_tilde (l ++ a85_tilde :: rest) = rest.
+Proof.
+  induction 1 as [|s l Hs Hl IH]; cbn [app drop_until].
+  - rewrite N.eqb_refl. reflexivity.
+  - destruct (sym_ok_clean s Hs) as [_ ->]. exact IH.
+Qed.
+
+Lemma digit_not_z s : digit s -> (s =? a85_z) = false.
+Proof. unfold digit, a85_z. intros. apply N.eqb_neq. lia. Qed.
+
+Lemma of_be4_zero a b c d : of_be4 a b c d = 0 -> a = 0 /\ b = 0 /\ c = 0 /\ d = 0.
+Proof. unfold of_be4. lia. Qed.
+
+Lemma body_roundtrip : forall f x g, wf_bytes x -> (length x < f)%nat ->
+  (length (encode_85_body f x) < g)%nat ->
+  a85_loop g (encode_85_body f x) = Ok x /\ Forall sym_ok (encode_85_body f x).
+Proof.
+  induction f as [|f IH]; intros x g Hwf Hf Hg; [lia|].
+  destruct x as [|a [|b [|c [|d t]]]].
+  - cbn [encode_85_body]. destruct g; [cbn in Hg; lia|]. split; [reflexivity|constructor].
+  - (* one byte *)
+    apply wf_bytes_cons in Hwf. destruct Hwf as [Ha _].
+    destruct (tail1 a Ha) as (s0 & s1 & s2 & s3 & s4 & w & E & D0 & D1 & W & F).
+    cbn [encode_85_body length app repeatN Nat.sub]. rewrite E. cbn [firstn Nat.add].
+    destruct g; [cbn in Hg; lia|]. split.
+    + cbn [a85_loop]. rewrite (digit_not_z s0 D0). cbn [length app repeatN Nat.sub].
+      change a85_pad with 117. rewrite W. cbn [Nat.sub]. rewrite F. reflexivity.
+    + repeat (apply Forall_cons; [left; assumption|]). apply Forall_nil.
+  - apply wf_bytes_cons in Hwf. destruct Hwf as [Ha Hwf].
+    apply wf_bytes_cons in Hwf. destruct Hwf as [Hb _].
+    destruct (tail2 a b Ha Hb) as (s0 & s1 & s2 & s3 & s4 & w & E & D0 & D1 & D2 & W & F).
+    cbn [encode_85_body length app repeatN Nat.sub]. rewrite E. cbn [firstn Nat.add].
+    destruct g; [cbn in Hg; lia|]. split.
+    + cbn [a85_loop]. rewrite (digit_not_z s0 D0). cbn [length app repeatN Nat.sub].
+      change a85_pad with 117. rewrite W. cbn [Nat.sub]. rewrite F. reflexivity.
+    + repeat (apply Forall_cons; [left; assumption|]). apply Forall_nil.
+  - apply wf_bytes_cons in Hwf. destruct Hwf as [Ha Hwf].
+    apply wf_bytes_cons in Hwf. destruct Hwf as [Hb Hwf].
+    apply wf_bytes_cons in Hwf. destruct Hwf as [Hc _].
+    destruct (tail3 a b c Ha Hb Hc) as (s0 & s1 & s2 & s3 & s4 & w & E & D0 & D1 & D2 & D3 & W & F).
+    cbn [encode_85_body length app repeatN Nat.sub]. rewrite E. cbn [firstn Nat.add].
+    destruct g; [cbn in Hg; lia|]. split.
+    + cbn [a85_loop]. rewrite (digit_not_z s0 D0). cbn [length app repeatN Nat.sub].
+      change a85_pad with 117. rewrite W. cbn [Nat.sub]. rewrite F. reflexivity.
+    + repeat (apply Forall_cons; [left; assumption|]). apply Forall_nil.
+  - apply wf_bytes_cons in Hwf. destruct Hwf as [Ha Hwf].
+    apply wf_bytes_cons in Hwf. destruct Hwf as [Hb Hwf].
+    apply wf_bytes_cons in Hwf. destruct Hwf as [Hc Hwf].
+    apply wf_bytes_cons in Hwf. destruct Hwf as [Hd Hwf].
+    cbn [encode_85_body] in *. cbn [length] in Hf.
+    destruct (N.eqb_spec (of_be4 a b c d) 0) as [Z|NZ].
+    + apply of_be4_zero in Z. destruct Z as (-> & -> & -> & ->).
+      cbn [app length] in *. destruct g; [lia|].
+      destruct (IH t g Hwf ltac:(lia) ltac:(lia)) as [L S].
+      split.
+      * cbn [a85_loop]. rewrite N.eqb_refl. rewrite L. reflexivity.
+      * constructor; [right; reflexivity|exact S].
+    + destruct (a85_group a b c d Ha Hb Hc Hd) as (s0 & s1 & s2 & s3 & s4 & E & D0 & D1 & D2 & D3 & D4 & W).
+      rewrite E in *. cbn [app length] in *. destruct g; [lia|].
+      destruct (IH t g Hwf ltac:(lia) ltac:(lia)) as [L S].
+      split.
+      * cbn [a85_loop]. rewrite (digit_not_z s0 D0). rewrite W, L. reflexivity.
+      * repeat (apply Forall_cons; [left; assumption|]). exact S.
+Qed.
+
+(** C16 (ASCII85): the decoder inverts the encoder on every byte string. *)
+Theorem a85_roundtrip : forall x, wf_bytes x -> decode_85 (encode_85 x) = Ok x.
+Proof.
+  intros x Hwf. unfold decode_85, encode_85.
+  set (body := encode_85_body (S (length x)) x).
+  destruct (body_roundtrip (S (length x)) x (S (length body)) Hwf (Nat.lt_succ_diag_r _) (Nat.lt_succ_diag_r _)) as [L S].
+  fold body in L, S.
+  rewrite strip_app, (strip_clean body S).
+  change (strip a85_ws [a85_tilde; a85_gt]) with [a85_tilde; a85_gt].
+  rewrite take_until_clean, drop_until_clean by assumption.
+  rewrite L. rewrite N.eqb_refl. reflexivity.
+Qed.
+
+(** the encoder's output is standard: only digits !..u, z, and the ~> terminator *)
+Theorem a85_output_standard : forall x, wf_bytes x ->
+  exists body, encode_85 x = body ++ [126; 62] /\ Forall sym_ok body.
+Proof.
+  intros x Hwf. exists (encode_85_body (S (length x)) x). split; [reflexivity|].
+  set (body := encode_85_body (S (length x)) x).
+  destruct (body_roundtrip (S (length x)) x (S (length body)) Hwf (Nat.lt_succ_diag_r _) (Nat.lt_succ_diag_r _)) as [_ S]. exact S.
 Qed.
